@@ -21,6 +21,8 @@ impl Config {
     pub fn suspend_child_after_inactive_seconds(&self) -> Option<i64> { unimplemented!() }
 }
 pub struct SlowKrillRuntime(pub u8);
+pub struct RepositoryManager(pub u8);
+impl RepositoryManager { pub fn is_initialized(&self) -> Result<bool, Error> { unimplemented!() } }
 impl CaManager {
     pub fn cas_repo_sync_single(&self, _c: &CaHandle, _v: u64, _k: &SlowKrillRuntime) -> Result<bool, Error> { unimplemented!() }
     pub fn ca_sync_parent(&self, _c: &CaHandle, _v: u64, _p: &ParentHandle, _a: &Actor, _k: &SlowKrillRuntime) -> Result<bool, Error> { unimplemented!() }
@@ -51,7 +53,13 @@ impl KrillRuntime {
     #[verifier::external_body] pub fn ca_manager(&self) -> (q: &CaManager) { unimplemented!() }
     #[verifier::external_body] pub fn config(&self) -> (q: &Config) { unimplemented!() }
     #[verifier::external_body] pub fn system_actor(&self) -> (q: &Actor) { unimplemented!() }
+    #[verifier::external_body] pub fn repo_manager(&self) -> (q: &RepositoryManager) ensures *q == repo_of(*self) { unimplemented!() }
 }
+#[verifier::external_type_specification] #[verifier::external_body] pub struct ExRepositoryManager(RepositoryManager);
+/// this instance runs a publication server (RepositoryManager::is_initialized, assumed)
+pub uninterp spec fn has_publication_server(m: RepositoryManager) -> bool;
+pub uninterp spec fn repo_of(k: KrillRuntime) -> RepositoryManager;
+pub assume_specification [RepositoryManager::is_initialized] (m: &RepositoryManager) -> (r: Result<bool, Error>) ensures r is Ok ==> r->Ok_0 == has_publication_server(*m);
 impl TaskQueue {
     #[verifier::external_body] pub fn schedule(&self, task: Task, priority: Priority) -> (r: KrillResult<()>) ensures r is Ok ==> scheduled(*self, task) { unimplemented!() }
     #[verifier::external_body] pub fn schedule_missing(&self, task: Task, priority: Priority) -> (r: KrillResult<()>) ensures r is Ok ==> scheduled(*self, task) { unimplemented!() }
@@ -114,7 +122,9 @@ def build():
         ('never_done', f'r is Ok ==> r->Ok_0 is FollowUp && r->Ok_0->FollowUp_0 == Task::{task}')]))
     U.free(U.fn(SCH, None, 'queue_start_tasks', eta=('FatalError',), ensures=[
         ('recurring_tasks_scheduled', '''r is Ok ==> scheduled(tasks_of(*krill), Task::RepublishIfNeeded)
-            && scheduled(tasks_of(*krill), Task::RenewObjectsIfNeeded) && scheduled(tasks_of(*krill), Task::UpdateSnapshots)''')]))
+            && scheduled(tasks_of(*krill), Task::RenewObjectsIfNeeded) && scheduled(tasks_of(*krill), Task::UpdateSnapshots)'''),
+        # F21: a publication is committed before its RRDP update is queued; a stop in between is repaired here
+        ('rrdp_update_scheduled_when_a_publication_server_runs', '''r is Ok && has_publication_server(repo_of(*krill)) ==> scheduled(tasks_of(*krill), Task::RrdpUpdateIfNeeded)''')]))
     # a task is finished for good only when its work was done (or can never be done); a premature or failed run is kept
     U.free(U.fn(SCH, None, 'sync_repo', eta=('FatalError',), ensures=[
         ('done_only_when_synchronised', 'r is Ok && (r->Ok_0 is Done ==> repo_synced(ca, version))'),
